@@ -131,6 +131,16 @@ theorem C05_append_object_adds_a_member {h : Heap} (hs : Struct h) (ha : Acyc h)
       absVal (fuel + 1) (h.appendObject n k v).1 n = some (.obj (kvs ++ [(k, x)]))) :=
   appendObject_refines hs ha n v hn hv hobj hloop hroot k hfresh fuel
 
+/-- **AppendObject under an existing key replaces the member**: the receiver denotes its old members without the one under `k`,
+followed by (k, value of v); all nodes off its ancestor chain — the replaced member, now detached, included — keep their value -/
+theorem C05_append_object_replaces_a_member {h : Heap} (hs : Struct h) (ha : Acyc h) (n v : Nat) (hn : n < h.size) (hv : v < h.size)
+    (hobj : (h.get n).type = .object) (hloop : h.isParentOrSelfNode n v = false) (hroot : (h.get v).parent = none)
+    (k : Bytes) (old : Id) (hold : (h.childMap n).lookup k = some old) (fuel : Nat) :
+    (∀ m : Id, ¬ Anc h m n → absVal fuel (h.appendObject n k v).1 m = absVal fuel h m) ∧
+    (∀ kvs x, absVal (fuel + 1) h n = some (.obj kvs) → absVal fuel h v = some x →
+      absVal (fuel + 1) (h.appendObject n k v).1 n = some (.obj (kvs.filter (fun y => !(y.1 == k)) ++ [(k, x)]))) :=
+  appendObject_replace_refines hs ha n v hn hv hobj hloop hroot k old hold fuel
+
 /-- **the scalar setters are assignments**: afterwards the receiver denotes the new scalar; all nodes off its ancestor chain — its
 former children included, which are detached — denote what they denoted before -/
 theorem C05_set_scalar_is_assignment {h : Heap} (hs : Struct h) (n : Nat) (hn : n < h.size) (v : SetVal) (hv : v.type.isContainer = false)
